@@ -121,6 +121,11 @@ func reentryMain(args []string) {
 							for atomic.LoadInt32(&stop) == 0 {
 								b.RegisterNode(eventlogger.NodeID(fmt.Sprintf("w%d", w)), mk(eventlogger.NodeTypeFilter))
 								b.SetSuccessThreshold("inner", 0)
+								// writers that change the pipeline map of the very type being traversed, while its
+								// root node is inside Process and about to call back into the Broker
+								pw := eventlogger.PipelineID(fmt.Sprintf("pw%d", w))
+								b.RegisterPipeline(eventlogger.Pipeline{PipelineID: pw, EventType: "outer", NodeIDs: []eventlogger.NodeID{"ifmt", "isink"}})
+								b.RemovePipeline("outer", pw)
 							}
 						}(w)
 					}
